@@ -576,38 +576,52 @@ func goR015(c *Ctx, r *Repo, rule string) {
 		return
 	}
 	c.Func(funcKey(ip, fd))
-	params := map[string]types.Object{}
-	for _, f := range fd.Type.Params.List {
-		for _, n := range f.Names {
-			params[n.Name] = info.Defs[n]
-		}
-	}
-	// find `inPackage = true` and its guarding condition
-	var cond ast.Expr
-	n := 0
+	fc := newFuncCanon(info, fd)
+	// the in-package flag is what NewRegistry receives as its third argument
+	var flag types.Object
+	var pkgNameObj types.Object
 	ast.Inspect(fd.Body, func(x ast.Node) bool {
-		ifs, ok := x.(*ast.IfStmt)
-		if !ok {
-			return true
-		}
-		for _, s := range ifs.Body.List {
-			if as, ok := s.(*ast.AssignStmt); ok && len(as.Lhs) == 1 && len(as.Rhs) == 1 {
-				if l, ok := as.Lhs[0].(*ast.Ident); ok && l.Name == "inPackage" {
-					if rv, ok := as.Rhs[0].(*ast.Ident); ok && rv.Name == "true" {
-						cond = ifs.Cond
-						n++
-					}
+		switch y := x.(type) {
+		case *ast.CallExpr:
+			if strings.HasSuffix(calleeName(info, y), "template.NewRegistry") && len(y.Args) == 3 {
+				if id, ok := y.Args[2].(*ast.Ident); ok {
+					flag = info.Uses[id]
+				}
+			}
+		case *ast.KeyValueExpr:
+			if k, ok := y.Key.(*ast.Ident); ok && k.Name == "pkgName" {
+				if id, ok := y.Value.(*ast.Ident); ok {
+					pkgNameObj = info.Uses[id]
 				}
 			}
 		}
 		return true
 	})
-	// any other assignment of true to inPackage outside that if is a violation
-	total := 0
+	if flag == nil || pkgNameObj == nil {
+		c.Fail(rule, "inPackage|flag", r.Pos(fd.Pos()), "cannot identify the in-package flag handed to template.NewRegistry / the output package name stored in the generator")
+		return
+	}
+	// the single site that sets the flag to true, and its guarding condition
+	var cond ast.Expr
+	n, total := 0, 0
 	ast.Inspect(fd.Body, func(x ast.Node) bool {
-		if as, ok := x.(*ast.AssignStmt); ok && len(as.Lhs) == 1 && len(as.Rhs) == 1 {
-			if l, ok := as.Lhs[0].(*ast.Ident); ok && l.Name == "inPackage" {
-				if rv, ok := as.Rhs[0].(*ast.Ident); !ok || rv.Name != "false" {
+		switch y := x.(type) {
+		case *ast.IfStmt:
+			for _, s := range y.Body.List {
+				if as, ok := s.(*ast.AssignStmt); ok && len(as.Lhs) == 1 && len(as.Rhs) == 1 && isObj(info, as.Lhs[0], flag) && types.ExprString(as.Rhs[0]) == "true" {
+					cond = y.Cond
+					n++
+				}
+			}
+		case *ast.AssignStmt:
+			for i, l := range y.Lhs {
+				if isObj(info, l, flag) && i < len(y.Rhs) && types.ExprString(y.Rhs[i]) != "false" {
+					total++
+				}
+			}
+		case *ast.ValueSpec:
+			for i, nm := range y.Names {
+				if info.Defs[nm] == flag && i < len(y.Values) && types.ExprString(y.Values[i]) != "false" {
 					total++
 				}
 			}
@@ -615,33 +629,31 @@ func goR015(c *Ctx, r *Repo, rule string) {
 		return true
 	})
 	if n != 1 || total != 1 || cond == nil {
-		c.Fail(rule, "inPackage|assignment", r.Pos(fd.Pos()), fmt.Sprintf("inPackage is set true at %d guarded / %d total sites, want exactly one guarded site", n, total))
+		c.Fail(rule, "inPackage|assignment", r.Pos(fd.Pos()), fmt.Sprintf("the in-package flag is set true at %d guarded / %d total sites, want exactly one guarded site", n, total))
 		return
 	}
-	atoms := conjuncts(cond)
+	const srcDir = "github.com/chigopher/pathlib.NewPath(ARG1.GoFiles[0]).Parent<(github.com/chigopher/pathlib.Path).Parent>()"
+	isOutDir := func(s string) bool { return s == "ARG2" || s == "var<*github.com/chigopher/pathlib.Path>" }
 	okName, okDir := false, false
 	var extra []string
-	for _, a := range atoms {
+	for _, a := range conjuncts(cond) {
 		switch x := ast.Unparen(a).(type) {
 		case *ast.BinaryExpr:
 			if x.Op == token.EQL {
-				l, rr := ast.Unparen(x.X), ast.Unparen(x.Y)
-				if _, ok := l.(*ast.SelectorExpr); ok {
+				l, rr := fc.E(x.X), fc.E(x.Y)
+				if l == "ARG1.Name" {
 					l, rr = rr, l
 				}
-				li, lok := l.(*ast.Ident)
-				rs, rok := rr.(*ast.SelectorExpr)
-				if lok && rok && info.Uses[li] == params["pkgName"] && rs.Sel.Name == "Name" {
-					if ri, ok := rs.X.(*ast.Ident); ok && info.Uses[ri] == params["srcPkg"] {
-						okName = true
-						continue
-					}
+				if rr == "ARG1.Name" && (isObj(info, x.X, pkgNameObj) || isObj(info, x.Y, pkgNameObj)) {
+					okName = true
+					continue
 				}
+				_ = l
 			}
 		case *ast.CallExpr:
-			if sel, ok := x.Fun.(*ast.SelectorExpr); ok && sel.Sel.Name == "Equals" && len(x.Args) == 1 {
-				a1, a2 := types.ExprString(sel.X), types.ExprString(x.Args[0])
-				if (a1 == "srcPkgFSPath" && a2 == "outPkgFSPath") || (a2 == "srcPkgFSPath" && a1 == "outPkgFSPath") {
+			if strings.HasSuffix(calleeName(info, x), "pathlib.Path).Equals") && len(x.Args) == 1 {
+				a1, a2 := fc.E(x.Fun.(*ast.SelectorExpr).X), fc.E(x.Args[0])
+				if a1 == srcDir && isOutDir(a2) || a2 == srcDir && isOutDir(a1) {
 					okDir = true
 					continue
 				}
@@ -652,22 +664,9 @@ func goR015(c *Ctx, r *Repo, rule string) {
 	if okName && okDir && len(extra) == 0 {
 		c.OK(rule, "inPackage|condition", r.Pos(cond.Pos()), types.ExprString(cond))
 	} else {
-		c.Fail(rule, "inPackage|condition", r.Pos(cond.Pos()), fmt.Sprintf("the in-package decision is %q; it must be exactly 'pkgName == srcPkg.Name && srcPkgFSPath.Equals(outPkgFSPath)' on the raw values: a same-directory package with a different name (e.g. foo_test) has to import the source package", types.ExprString(cond)))
+		c.Fail(rule, "inPackage|condition", r.Pos(cond.Pos()), fmt.Sprintf("the in-package decision is %q; it must be exactly '<output package name> == <source package>.Name && <directory of the source package's files>.Equals(<output directory>)' on the raw values: a same-directory package with a different name (e.g. foo_test) has to import the source package", types.ExprString(cond)))
 	}
-	// srcPkgFSPath originates from the source package's first Go file's directory
-	okSrc := false
-	ast.Inspect(fd.Body, func(x ast.Node) bool {
-		if as, ok := x.(*ast.AssignStmt); ok && len(as.Lhs) == 1 && len(as.Rhs) == 1 {
-			if l, ok := as.Lhs[0].(*ast.Ident); ok && l.Name == "srcPkgFSPath" {
-				s := types.ExprString(as.Rhs[0])
-				if strings.Contains(s, "srcPkg.GoFiles[0]") && strings.HasSuffix(s, ".Parent()") {
-					okSrc = true
-				}
-			}
-		}
-		return true
-	})
-	c.Check(okSrc, rule, "inPackage|source-dir", r.Pos(fd.Pos()), "source directory = parent of srcPkg.GoFiles[0]", "srcPkgFSPath is not the directory of the source package's files")
+	c.Check(okDir, rule, "inPackage|source-dir", r.Pos(fd.Pos()), "source directory = parent of srcPkg.GoFiles[0]", "the directory compared with the output directory is not the directory of the source package's files")
 }
 
 func conjuncts(e ast.Expr) []ast.Expr {
@@ -826,8 +825,25 @@ func goR017(c *Ctx, r *Repo) {
 	if id, ok := bytesArg.(*ast.Ident); ok {
 		ast.Inspect(fd.Body, func(n ast.Node) bool {
 			if as, ok := n.(*ast.AssignStmt); ok && len(as.Rhs) == 1 && len(as.Lhs) == 2 {
-				if l, ok := as.Lhs[0].(*ast.Ident); ok && objOf(info, l) == info.Uses[id] && strings.HasSuffix(types.ExprString(as.Rhs[0]), ".ReadFile()") && strings.Contains(types.ExprString(as.Rhs[0]), "goMod") {
-					okBytes = true
+				if l, ok := as.Lhs[0].(*ast.Ident); ok && objOf(info, l) == info.Uses[id] && strings.HasSuffix(calleeNameOfExpr(info, as.Rhs[0]), "pathlib.Path).ReadFile") {
+					// the receiver is (a variable only ever assigned) <dir>.Join("go.mod")
+					call := ast.Unparen(as.Rhs[0]).(*ast.CallExpr)
+					fcm := newFuncCanon(info, fd)
+					if strings.Contains(fcm.E(call.Fun.(*ast.SelectorExpr).X), `.Join<(github.com/chigopher/pathlib.Path).Join>("go.mod")`) {
+						okBytes = true
+					} else if root, _ := selChain(call.Fun.(*ast.SelectorExpr).X); root != nil {
+						nAs, nGood := 0, 0
+						ast.Inspect(fd.Body, func(m ast.Node) bool {
+							if a2, ok := m.(*ast.AssignStmt); ok && len(a2.Lhs) == 1 && len(a2.Rhs) == 1 && isObj(info, a2.Lhs[0], info.Uses[root]) {
+								nAs++
+								if strings.Contains(fcm.E(a2.Rhs[0]), `.Join<(github.com/chigopher/pathlib.Path).Join>("go.mod")`) {
+									nGood++
+								}
+							}
+							return true
+						})
+						okBytes = nAs > 0 && nAs == nGood
+					}
 				}
 			}
 			return true
@@ -851,6 +867,13 @@ func goR017(c *Ctx, r *Repo) {
 	c.Check(okEmpty, "R01.7", "findPkgPath|no-module-line", r.Pos(fd.Pos()), "empty module path is an error", "a go.mod without module directive is not reported as an error")
 }
 
+func calleeNameOfExpr(info *types.Info, e ast.Expr) string {
+	if call, ok := ast.Unparen(e).(*ast.CallExpr); ok {
+		return calleeName(info, call)
+	}
+	return ""
+}
+
 // returnsError: the block ends in a return whose last result is not the nil identifier.
 func returnsError(info *types.Info, b *ast.BlockStmt) bool {
 	if len(b.List) == 0 {
@@ -861,4 +884,26 @@ func returnsError(info *types.Info, b *ast.BlockStmt) bool {
 		return false
 	}
 	return !isNilIdent(info, rs.Results[len(rs.Results)-1])
+}
+
+func init() {
+	register("DBGCANON", func(c *Ctx) {
+		r := loadRepo(c, packages.LoadSyntax, "", "./internal")
+		ip := r.Pkg("internal")
+		for _, name := range []string{"NewTemplateGenerator", "findPkgPath"} {
+			fd := FuncDecl(ip, name)
+			fc := newFuncCanon(ip.TypesInfo, fd)
+			ast.Inspect(fd.Body, func(n ast.Node) bool {
+				switch x := n.(type) {
+				case *ast.IfStmt:
+					fmt.Println(name, "IF", fc.E(x.Cond))
+				case *ast.AssignStmt:
+					if len(x.Rhs) == 1 {
+						fmt.Println(name, "ASSIGN", types.ExprString(x.Lhs[0]), "=", fc.E(x.Rhs[0]))
+					}
+				}
+				return true
+			})
+		}
+	})
 }
